@@ -40,3 +40,171 @@ def gen_opcodes():
     out.append("  end.\n\nDefinition all_opcodes : list opcode :=\n  [" + "; ".join(f"O_{n}" for n, _ in variants) + "].\n")
     out.append("\nDefinition opcode_eqb (a b : opcode) : bool := N.eqb (opcode_num a) (opcode_num b).\n")
     return extract.write_if_changed("Opcodes.v", "".join(out))
+
+
+# ---------------------------------------------------------------------------------------------
+# backend/src/opcode_select.rs tables, syntax BinaryOp, sema ResolvedType predicates
+def _enum_variants(text, name):
+    m = re.search(r"pub\s+enum\s+%s\s*\{(.*?)\n\}" % name, text, flags=re.S)
+    if not m:
+        raise extract.ExtractError(f"enum {name} not found")
+    body = m.group(1)
+    out, depth, cur = [], 0, ""
+    for ch in body:                      # split on top-level commas (variants may carry fields)
+        if ch in "({<[":
+            depth += 1
+        elif ch in ")}>]":
+            depth -= 1
+        if ch == "," and depth == 0:
+            out.append(cur)
+            cur = ""
+        else:
+            cur += ch
+    out.append(cur)
+    names = []
+    for item in out:
+        item = re.sub(r"#\[[^\]]*\]", "", item).strip()
+        if not item:
+            continue
+        mm = re.match(r"([A-Z][A-Za-z0-9]*)", item)
+        if not mm:
+            raise extract.ExtractError(f"unexpected variant syntax in enum {name}: {item[:40]!r}")
+        names.append((mm.group(1), item[len(mm.group(1)):].strip()))
+    return names
+
+
+def _fn_body(text, name):
+    m = re.search(r"fn\s+%s\s*\([^)]*\)\s*(?:->\s*[^{]+)?\{" % name, text)
+    if not m:
+        raise extract.ExtractError(f"fn {name} not found")
+    i, depth = m.end(), 1
+    while depth and i < len(text):
+        depth += {"{": 1, "}": -1}.get(text[i], 0)
+        i += 1
+    return text[m.end():i - 1]
+
+
+RT_KNOWN = {"I8", "I16", "I32", "I64", "U8", "U16", "U32", "U64", "F32", "F64", "Bool", "String", "Null",
+            "Function", "Array", "Vec", "Tuple", "Range", "Struct", "Dynamic", "Uncertain"}
+RT_MODELLED = ["I8", "I16", "I32", "I64", "U8", "U16", "U32", "U64", "F32", "F64", "Bool", "String", "Null", "Dynamic"]
+
+
+@extract.register("OpcodeSelectTables")
+def gen_select_tables():
+    src_sel = "backend/src/opcode_select.rs"
+    src_op = "syntax/src/ast/expr.rs"
+    src_rt = "sema/src/types/resolved_type.rs"
+    sel = extract.strip_comments(extract.rd(src_sel))
+    ops = [n for n, rest in _enum_variants(extract.strip_comments(extract.rd(src_op)), "BinaryOp")]
+    if len(ops) < 10 or len(set(ops)) != len(ops):
+        raise extract.ExtractError("enum BinaryOp has an unexpected shape")
+    rt_text = extract.strip_comments(extract.rd(src_rt))
+    rts = _enum_variants(rt_text, "ResolvedType")
+    unknown = [n for n, _ in rts if n not in RT_KNOWN]
+    missing = [n for n in RT_KNOWN if n not in [x for x, _ in rts]]
+    if unknown or missing:
+        raise extract.ExtractError(f"enum ResolvedType changed (new {unknown}, gone {missing}): update Model/OpcodeSelect.v rtype")
+
+    def pred(fn):
+        body = _fn_body(rt_text, fn)
+        m = re.search(r"matches!\s*\(\s*self\s*,(.*)\)", body, flags=re.S)
+        if not m:
+            raise extract.ExtractError(f"ResolvedType::{fn}: expected a single matches!(self, ...) body")
+        names = re.findall(r"ResolvedType::([A-Za-z0-9]+)", m.group(1))
+        rest = re.sub(r"ResolvedType::[A-Za-z0-9]+|\||\s", "", m.group(1))
+        if rest or not names or any(n not in RT_MODELLED for n in names):
+            raise extract.ExtractError(f"ResolvedType::{fn}: pattern list not understood: {m.group(1).strip()[:80]!r}")
+        return names
+
+    out = [extract.HEADER.format(src=f"{src_sel}, {src_op}, {src_rt}"),
+           "From Aelys Require Import Extracted.Opcodes.\n\n",
+           "(* syntax::ast::BinaryOp *)\nInductive binop : Set :=\n", "".join(f"| Op{n}\n" for n in ops), ".\n",
+           "Definition all_binops : list binop := (" + " :: ".join(f"Op{n}" for n in ops) + " :: nil)%list.\n\n",
+           "(* sema::ResolvedType; Function/Array/Vec/Tuple/Range/Struct carry no information for selection: ROther *)\n",
+           "Inductive rtype : Set :=\n", "".join(f"| R{n}\n" for n in RT_MODELLED if n != "Dynamic"),
+           "| ROther | RDynamic\n| RUncertain (inner : rtype).\n\n"]
+    for fn, coq in (("is_integer", "is_integer"), ("is_float", "is_float_ty")):
+        names = pred(fn)
+        out.append(f"(* ResolvedType::{fn} *)\nDefinition {coq} (t : rtype) : bool :=\n  match t with " +
+                   " | ".join("R" + n for n in names) + " => true | _ => false end.\n\n")
+    tables = ["select_typed_int_opcode", "select_typed_float_opcode", "select_guarded_int_opcode",
+              "select_guarded_float_opcode", "select_generic_opcode"]
+    from_opc = extract.strip_comments(extract.rd("bytecode/src/bytecode/opcode.rs"))
+    for fn in tables:
+        body = _fn_body(sel, fn)
+        m = re.search(r"match\s+op\s*\{(.*)\}", body, flags=re.S)
+        if not m:
+            raise extract.ExtractError(f"{fn}: expected `match op {{ ... }}`")
+        table = {}
+        for arm in re.finditer(r"((?:BinaryOp::[A-Za-z0-9]+\s*\|?\s*)+)=>\s*OpCode::([A-Za-z0-9]+)\s*,?", m.group(1)):
+            for o in re.findall(r"BinaryOp::([A-Za-z0-9]+)", arm.group(1)):
+                if o in table:
+                    raise extract.ExtractError(f"{fn}: operator {o} listed twice")
+                table[o] = arm.group(2)
+        leftover = re.sub(r"((?:BinaryOp::[A-Za-z0-9]+\s*\|?\s*)+)=>\s*OpCode::([A-Za-z0-9]+)\s*,?", "", m.group(1)).strip()
+        if leftover or sorted(table) != sorted(ops):
+            raise extract.ExtractError(f"{fn}: arms not understood or not exhaustive (leftover {leftover[:60]!r}, "
+                                       f"missing {sorted(set(ops) - set(table))})")
+        for v in table.values():
+            if not re.search(r"\b%s\b" % v, from_opc):
+                raise extract.ExtractError(f"{fn}: unknown OpCode::{v}")
+        out.append(f"Definition {fn} (op : binop) : opcode :=\n  match op with\n" +
+                   "".join(f"  | Op{o} => O_{table[o]}\n" for o in ops) + "  end.\n\n")
+    return extract.write_if_changed("OpcodeSelectTables.v", "".join(out))
+
+
+# ---------------------------------------------------------------------------------------------
+# dispatch arms of the arithmetic / comparison / bitwise / control-flow opcodes
+ACCESSORS = ["as_int_unchecked", "as_float_unchecked", "as_int", "as_float", "as_bool", "as_ptr", "is_int", "is_float", "is_null"]
+
+
+@extract.register("DispatchArms")
+def gen_dispatch_arms():
+    files = ["arithmetic", "comparison", "bitwise", "control_flow"]
+    arms = []      # (file, [numbers], set(accessors))
+    for f in files:
+        src = f"runtime/src/vm/dispatch/ops/{f}.inc"
+        text = extract.strip_comments(extract.rd(src))
+        m = re.search(r"match\s+opcode_byte\s*\{", text)
+        if not m:
+            raise extract.ExtractError(f"{src}: `match opcode_byte {{` not found")
+        i, n = m.end(), len(text)
+        while i < n:
+            mm = re.compile(r"\s*((?:\d+\s*\|\s*)*\d+|_)\s*=>\s*").match(text, i)
+            if not mm:
+                if text[i:].strip().startswith("}"):
+                    break
+                raise extract.ExtractError(f"{src}: arm pattern not understood near {text[i:i + 40]!r}")
+            j = mm.end()
+            if text[j] == "{":
+                depth, k = 1, j + 1
+                while depth and k < n:
+                    depth += {"{": 1, "}": -1}.get(text[k], 0)
+                    k += 1
+                body = text[j:k]
+            else:
+                k = text.index(",", j) + 1
+                body = text[j:k]
+            if mm.group(1) != "_":
+                nums = [int(x) for x in re.findall(r"\d+", mm.group(1))]
+                acc = sorted({a for a in ACCESSORS if re.search(r"\.%s\s*\(" % a, body)})
+                arms.append((f, nums, acc))
+            i = k
+            while i < n and text[i] in " \t\n,":
+                i += 1
+    if len(arms) < 40:
+        raise extract.ExtractError("too few dispatch arms found")
+    seen = {}
+    for f, nums, _ in arms:
+        for x in nums:
+            if x in seen:
+                raise extract.ExtractError(f"opcode {x} handled by two arms ({seen[x]}, {f})")
+            seen[x] = f
+    out = [extract.HEADER.format(src="runtime/src/vm/dispatch/ops/{arithmetic,comparison,bitwise,control_flow}.inc"),
+           "From Coq Require Import NArith List String.\nImport ListNotations.\nOpen Scope string_scope.\n\n",
+           "(* one entry per match arm: the opcode numbers it handles and the Value accessors its body calls *)\n",
+           "Definition dispatch_arms : list (list N * list string) :=\n  [\n"]
+    out.append(";\n".join("   ([" + "; ".join(f"{x}%N" for x in nums) + "], [" + "; ".join(f'"{a}"' for a in acc) + "])"
+                          for _, nums, acc in arms))
+    out.append("\n  ].\n")
+    return extract.write_if_changed("DispatchArms.v", "".join(out))
